@@ -11,6 +11,7 @@ import (
 	"log"
 	"os"
 	"slices"
+	"strings"
 	"sync"
 	"sync/atomic"
 	"time"
@@ -696,14 +697,25 @@ func (m *Memory) FindLatest(
 			db = db.Where(state+".deactivated = ?", true)
 			joins = append(joins, state)
 		}
-		// MTimeStates
-		for i, state := range s.MTimeStates {
-			db = db.Where(state+".tick >= ?", s.MTime[i])
-			joins = append(joins, state)
-		}
-		for i, state := range e.MTimeStates {
-			db = db.Where(state+".tick <= ?", e.MTime[i])
-			joins = append(joins, state)
+		// MTimeStates: skip what is entirely before the start or entirely after
+		// the end (like [am.Time.Before] and [am.Time.After] in the other
+		// backends)
+		if len(s.MTimeStates) > 0 {
+			var before, after []string
+			var argsBefore, argsAfter []any
+			for i, state := range s.MTimeStates {
+				before = append(before, state+".tick < ?")
+				argsBefore = append(argsBefore, s.MTime[i])
+				if i < len(e.MTime) {
+					after = append(after, state+".tick > ?")
+					argsAfter = append(argsAfter, e.MTime[i])
+				}
+				joins = append(joins, state)
+			}
+			db = db.Where("NOT ("+strings.Join(before, " AND ")+")", argsBefore...)
+			if len(after) > 0 {
+				db = db.Where("NOT ("+strings.Join(after, " AND ")+")", argsAfter...)
+			}
 		}
 
 		// joins
